@@ -3,7 +3,8 @@ import k2check
 
 
 def run(tier):
-    return k2check.run("C02", tier, profile="mixed")
+    import k1b
+    return k2check.run("C02", tier, profile="mixed", extra_props=["C02Par"], phases=[k1b.split_phase])
 
 
 def replay(path):
